@@ -1,9 +1,12 @@
 /-
   C12: parsing a flash image yields a well-formed tree (`parse_WF`), for images whose size is a
-  multiple of the 4 KiB block size and below 2^28 bytes (beyond that the uint16 block numbers of
-  the gap regions wrap; an image whose size is not a multiple of 4 KiB parses but can never be saved).
+  multiple of the 4 KiB block size and at most 2^28 bytes (at exactly 2^28 the uint16 Limit of the last
+  gap region is `uint16(65536) - 1 = 0xFFFF`, which still gives the right end; beyond that it wraps to a
+  small number and the tree can never be saved — `asmFlash_fails_large` in Large.lean; an image whose
+  size is not a multiple of 4 KiB parses but can never be saved either).
 -/
 import FianoModel.TightenMe.Preserve
+import FianoModel.Uefi.FaithfulCor
 
 namespace Fiano.TightenMe
 
@@ -67,44 +70,27 @@ theorem parseDesc_geom (b : Bytes) (d : Desc) (h : parseDesc b = .ok d) :
 
 /-! ### BIOS elements cover the region buffer -/
 
-theorem parseBiosLoop_flat (fuel pol : Nat) (buf : Bytes) (abs : Nat) (els : List Elem) (pol' : Nat)
-    (h : parseBiosLoop fuel pol buf abs = .ok (els, pol')) : els.flatMap (·.buf) = buf := by
-  induction fuel generalizing pol buf abs els pol' with
-  | zero => simp [parseBiosLoop] at h
-  | succ fuel ih =>
-    unfold parseBiosLoop at h
-    split at h
-    · split at h
-      · injection h with h; injection h with h1 _; subst h1; simp
-      · rename_i hz
-        injection h with h; injection h with h1 _; subst h1
-        have : buf.length = 0 := by simpa using hz
-        simp [List.length_eq_zero_iff.mp this]
-    · rename_i off _
-      simp only at h
-      split at h
-      · cases h
-      · rename_i len ep pol1 hfv
-        split at h
-        · cases h
-        · split at h
-          · cases h
-          · rename_i rest pol2 hrec
-            injection h with h; injection h with h1 _; subst h1
-            have := ih _ _ _ _ _ hrec
-            simp only [List.flatMap_append, List.flatMap_cons, this]
-            have e : buf.drop (off + len) = (buf.drop off).drop len := by rw [List.drop_drop]
-            rw [e, ← List.append_assoc _ _ (List.drop len _)]
-            rw [List.append_assoc, List.take_append_drop]
-            split
-            · simp
-            · rename_i h0
-              have : off = 0 := by omega
-              subst this; simp
+theorem none_bounded : Uefi.Hooks.none.BoundedCodecs := by
+  intro g c x y h; cases h
 
-theorem parseBios_flat (pol : Nat) (buf : Bytes) (els : List Elem) (pol' : Nat)
-    (h : parseBios pol buf = .ok (els, pol')) : els.flatMap (·.buf) = buf :=
-  parseBiosLoop_flat _ _ _ _ _ _ h
+theorem toElem_buf (e : Uefi.BiosElem) : (toElem e).buf = e.buf := by
+  cases e <;> rfl
+
+/-- the elements the shared parser finds cover the region buffer (its theorem `elems_concat`, C04) -/
+theorem parseBios_flat (fuel pol : Nat) (buf : Bytes) (els : List Elem) (pol' : Nat)
+    (hlen : buf.length < 9223372036854775808)
+    (h : parseBios fuel pol buf = .ok (els, pol')) : els.flatMap (·.buf) = buf := by
+  unfold parseBios at h
+  split at h
+  · cases h
+  · rename_i es st hp
+    injection h with h; injection h with h1 _; subst h1
+    have he := Uefi.bios_elems Uefi.Hooks.none none_bounded fuel buf 0 _ es st hlen hp
+    have hc := Uefi.elems_concat Uefi.Hooks.none es buf 0 he
+    rw [← hc, List.flatMap_def, List.map_map]
+    congr 2
+    funext e
+    exact toElem_buf e
 
 /-! ### FreeSpaceOffset is below 2^33 -/
 
@@ -160,7 +146,7 @@ theorem frOf_idx_inv (regs : List FRegion) (r : Region) (i : Nat) (fr fr' : FReg
   rw [frOf_idx regs r i href fr hfr] at h
   exact (Except.ok.inj h).symm
 
-theorem parseRegions_spec (img : Bytes) (nr : Nat) (regs : List FRegion) :
+theorem parseRegions_spec (img : Bytes) (himg : img.length < 9223372036854775808) (nr : Nat) (regs : List FRegion) :
     ∀ (frs : List FRegion) (i pol : Nat) (rs : List Region) (pol' : Nat),
       (∀ k, frs[k]? = regs[i + k]?) → parseRegions img nr i frs pol = .ok (rs, pol') →
       (∀ r ∈ rs, Parsed regs img r ∧ i ≤ slotOf r) ∧ rs.Pairwise (fun a b => slotOf a < slotOf b) := by
@@ -216,7 +202,7 @@ theorem parseRegions_spec (img : Bytes) (nr : Nat) (regs : List FRegion) :
                 · rename_i rs1 pol2 hrs1
                   injection h with h; injection h with h1 _; subst h1
                   obtain ⟨a, b, c⟩ := hrec _ _ _ hrs1
-                  have hflat := parseBios_flat _ _ _ _ hbios
+                  have hflat := parseBios_flat _ _ _ _ _ (by rw [hlen]; omega) hbios
                   refine ⟨?_, List.Pairwise.cons (fun y hy => (by have := c y hy; show i < slotOf y; omega)) b⟩
                   intro r hr
                   rcases List.mem_cons.mp hr with rfl | hr
@@ -311,16 +297,15 @@ theorem excl_raw_right (a b : Region) (h : b.body = .raw) : Excl a b := by
   simp [Excl, h, Body.isME, Body.isBIOS]
 
 theorem gap_facts (regs : List FRegion) (img : Bytes) (off next : Nat)
-    (h1 : off % 4096 = 0) (h2 : next % 4096 = 0) (h3 : off < next) (h4 : next ≤ img.length) (h5 : img.length < 2 ^ 28) :
+    (h1 : off % 4096 = 0) (h2 : next % 4096 = 0) (h3 : off < next) (h4 : next ≤ img.length) (h5 : img.length ≤ 2 ^ 28) :
     ∃ fr, frOf regs (gapRegion img off next) = .ok fr ∧ fr.baseOff = off ∧ fr.endOff = next ∧
       (payload (gapRegion img off next)).length = next - off ∧ (gapRegion img off next).body = .raw := by
   refine ⟨_, rfl, ?_, ?_, ?_, rfl⟩
   · simp only [FRegion.baseOff, u16, blockSize]
     rw [Nat.mod_eq_of_lt (by omega)]; omega
   · simp only [FRegion.endOff, u16, blockSize]
-    rw [Nat.mod_eq_of_lt (show next / 4096 < 65536 by omega)]
-    have : (next / 4096 + 65535) % 65536 = next / 4096 - 1 := by omega
-    rw [this]; omega
+    -- `uint16(next/4096) - 1`: also right for next = 2^28, where uint16(65536) = 0 and 0 - 1 = 0xFFFF
+    omega
   · simp only [payload, gapRegion]
     exact slice_length _ _ _ (by omega)
 
@@ -338,7 +323,7 @@ def IsGap (regs : List FRegion) (img : Bytes) (r : Region) : Prop :=
     fr.baseOff < fr.endOff ∧ payload r = slice img fr.baseOff (fr.endOff - fr.baseOff)
 
 theorem gap_isGap (regs : List FRegion) (img : Bytes) (off next : Nat)
-    (h1 : off % 4096 = 0) (h2 : next % 4096 = 0) (h3 : off < next) (h4 : next ≤ img.length) (h5 : img.length < 2 ^ 28) :
+    (h1 : off % 4096 = 0) (h2 : next % 4096 = 0) (h3 : off < next) (h4 : next ≤ img.length) (h5 : img.length ≤ 2 ^ 28) :
     IsGap regs img (gapRegion img off next) := by
   obtain ⟨fr, hf, hb, he, _, hraw⟩ := gap_facts regs img off next h1 h2 h3 h4 h5
   refine ⟨hraw, ⟨_, rfl⟩, ?_⟩
@@ -348,7 +333,7 @@ theorem gap_isGap (regs : List FRegion) (img : Bytes) (off next : Nat)
   refine ⟨by omega, ?_⟩
   rw [hb, he]; rfl
 
-theorem fillGaps_spec (regs : List FRegion) (img : Bytes) (hsz : img.length % 4096 = 0) (hlt : img.length < 2 ^ 28) :
+theorem fillGaps_spec (regs : List FRegion) (img : Bytes) (hsz : img.length % 4096 = 0) (hlt : img.length ≤ 2 ^ 28) :
     ∀ (l : List Region) (off : Nat) (out : List Region),
       (∀ r ∈ l, Parsed regs img r) → l.Pairwise Excl → off % 4096 = 0 → off ≤ img.length →
       fillGaps regs img img.length off l = .ok out →
@@ -468,7 +453,7 @@ theorem chain_content (regs : List FRegion) (img : Bytes) (l : List Region) (off
 
 /-- **Parsing yields a well-formed tree.** -/
 theorem parse_WF (pol : Nat) (img : Bytes) (f : Flash) (pol' : Nat)
-    (hsz : img.length % 4096 = 0) (hlt : img.length < 2 ^ 28)
+    (hsz : img.length % 4096 = 0) (hlt : img.length ≤ 2 ^ 28)
     (h : parseFlash pol img = .ok (f, pol')) :
     WF f ∧ f.size = img.length ∧ f.buf = img ∧ f.regions.flatMap payload = img.drop descLen ∧
     parseDesc (img.take descLen) = .ok f.desc ∧
@@ -495,7 +480,7 @@ theorem parse_WF (pol : Nat) (img : Bytes) (f : Flash) (pol' : Nat)
               · rename_i rs' hfill
                 injection h with h; injection h with h1 _; subst h1
                 obtain ⟨hgeom, hu16⟩ := parseDesc_geom _ _ hd
-                obtain ⟨hparsed, hpw⟩ := parseRegions_spec img d.numberOfRegions d.regs d.regs 0 pol rs pol1
+                obtain ⟨hparsed, hpw⟩ := parseRegions_spec img (by omega) d.numberOfRegions d.regs d.regs 0 pol rs pol1
                   (fun k => by simp) hrs
                 have hperm := isort_perm (baseKey d.regs) rs
                 have hparsed' : ∀ r ∈ isort (baseKey d.regs) rs, Parsed d.regs img r :=
